@@ -68,11 +68,26 @@ pub fn mem(t: &DataType, v: &Value) -> bool {
     }
 }
 
+fn is_scalar(t: &J) -> bool { !matches!(jtag(t), "struct" | "union" | "opt" | "list" | "set" | "array" | "fn" | "any" | "null") }
+fn is_col(t: &J) -> bool { is_scalar(t) || (jtag(t) == "opt" && is_scalar(&t[1])) }
+fn is_core_pair(a: &J, b: &J) -> bool {
+    let names = |t: &J| -> Vec<String> { let mut v: Vec<String> = t[1].as_array().map(|fs| fs.iter().map(|f| f[0].as_str().unwrap_or("").to_string()).collect()).unwrap_or_default(); v.sort(); v };
+    match (jtag(a), jtag(b)) {
+        ("struct", "struct") | ("union", "union") => names(a) == names(b) && a[1].as_array().unwrap().iter().chain(b[1].as_array().unwrap().iter()).all(|f| is_col(&f[1])),
+        ("list", "list") => is_scalar(&a[1]) && is_scalar(&b[1]),
+        _ => is_col(a) && is_col(b),
+    }
+}
+fn coarse_class(a: &J, b: &J) -> &'static str {
+    let has = |tag: &str| jtag(a) == tag || jtag(b) == tag;
+    if has("struct") { "Struct" } else if has("array") { "Array" } else if has("list") || has("set") { "ListSet" } else if has("union") { "Union" } else if has("opt") { "Optional" } else { "Other" }
+}
+
 /// magnitude class of the failing value (part of the finding key): values at or beyond 2^53 hit the i64/f64 representation limits
 fn vclass(v: &Value) -> &'static str {
     match v {
         Value::Integer(i) => if (**i as i128).abs() >= (1i128 << 53) { "huge" } else { "-" },
-        Value::Float(f) => if f.abs() >= 9007199254740992.0 { "huge" } else { "-" },
+        Value::Float(f) => if f.abs() >= 9007199254740992.0 { "huge" } else if **f == 0.0 { "signed-zero" } else { "-" },
         Value::List(xs) => if xs.iter().any(|x| vclass(x) == "huge") { "huge" } else { "-" },
         Value::Struct(xs) => if xs.iter().any(|(_, x)| vclass(x) == "huge") { "huge" } else { "-" },
         Value::Optional(x) => x.as_ref().map_or("-", |x| vclass(x)),
@@ -92,9 +107,12 @@ pub fn eval(case: &J) -> Outcome {
         let pair = format!("{}x{}", vname(&a), vname(&b));
         let cls = shape_class(&case["a"], &case["b"]);
         o.tag(&format!("pair={pair}"));
-        let prof = case["profile"].as_str().unwrap_or("core").to_string();
+        // core = the fragment the SQL path produces; everything else is "exotic" and keyed coarsely
+        let core = is_core_pair(&case["a"], &case["b"]);
+        let prof = if core { "core" } else { "exotic" };
         o.tag(&format!("profile={prof}"));
-        let cls = format!("{prof}/{cls}");
+        let pair = if core { pair } else { coarse_class(&case["a"], &case["b"]).to_string() };
+        let cls = if core { format!("core/{cls}") } else { "exotic".to_string() };
         let v: Option<Value> = if case["v"].is_null() { None } else { Some(val_of(&case["v"])) };
         let w: Option<Value> = if case["w"].is_null() { None } else { Some(val_of(&case["w"])) };
         let sub = guarded(|| a.is_subset_of(&b));
